@@ -248,16 +248,21 @@ class Model:
         self.types: dict = {}
         self.required: set = set()
         self.defaults: dict = {}
+        # JSON only: names that are not elements are refused ("additionalProperties": false):
+        # False / True / None (received from another grammar: not asserted by the model)
+        self.closed = False
 
     def clone(self) -> "Model":
         m = Model(self.kind)
         m.types = dict(self.types)
         m.required = set(self.required)
         m.defaults = dict(self.defaults)
+        m.closed = self.closed
         return m
 
     def clear(self) -> None:
         self.types, self.required, self.defaults = {}, set(), {}
+        self.closed = False
 
     def set_type(self, name, spec, merge: bool) -> None:
         if merge and name in self.types:
@@ -289,6 +294,10 @@ class Model:
                     return False
                 if v is None:
                     undetermined = True
+            elif self.closed is True:
+                return False
+            elif self.closed is None:
+                undetermined = True
         return None if undetermined else True
 
 
@@ -360,7 +369,8 @@ def op_groups():
         _edit("names", names=names, merge=_merge), _edit("names", names=names, merge=_merge), _edit("names", names=names, merge=_merge),
         _edit("types", items=typed, merge=_merge), _edit("types", items=typed, merge=_merge), _edit("types", items=typed, merge=_merge),
         _edit("data", items=valued, merge=_merge), _edit("data", items=valued, merge=_merge),
-        _edit("schema", props=props, merge=_merge, via_file=st.booleans()), _edit("schema", props=props, merge=_merge, via_file=st.booleans()),
+        _edit("schema", props=props, merge=_merge, via_file=st.booleans(), closed=st.booleans()),
+        _edit("schema", props=props, merge=_merge, via_file=st.booleans(), closed=st.booleans()),
         _edit("from_model", fields=fields), _edit("from_model", fields=fields),
     )
     structural = st.one_of(
@@ -383,6 +393,7 @@ def op_groups():
         _edit("def_del", el=_small),
         _edit("def_update", els=st.lists(_small, min_size=1, max_size=2), cls=dflt),
         _edit("def_assign", els=st.lists(_small, max_size=2), cls=dflt),
+        _edit("def_from_other", mode=st.integers(0, 2)), _edit("def_from_other", mode=st.integers(0, 2)),
     )
     query = st.one_of(
         _op("q_keys"), _op("q_nons"), _op("q_schema"), _op("q_schema"), _op("q_schema"), _op("q_to_json"), _op("q_to_json"), _op("q_repr"),
@@ -496,6 +507,8 @@ def check_json_documents(ctx, fam: Family, read_schema: bool, where: str) -> Non
     else:
         ctx.check(sorted(doc.get("required", [])) == sorted(model.required), "to_json_required",
                   f"{where}: to_json() required {doc.get('required')}, required names {sorted(model.required)}")
+    if model.closed is True:
+        ctx.check(doc.get("additionalProperties") is False, "to_json", f"{where}: to_json() lost 'additionalProperties': false: {doc}")
     for name, spec in model.types.items():
         exp = expected_property(spec)
         if exp is not None:
@@ -705,6 +718,8 @@ def apply_edit(op, fams, ctx, scratch) -> bool:
                             m.required.add(n)
                 if kind == "json" and src_m.types:
                     json_structural = True
+                    if src_m.closed is not False and m.closed is not True:
+                        m.closed = None
             if invalid:
                 fam.sync_js = False
         if not (fam.sync_js and other.sync_js):
@@ -731,6 +746,9 @@ def apply_edit(op, fams, ctx, scratch) -> bool:
                   "properties": {n: _copy.deepcopy(ATOM_SCHEMA[a]) for n, a in props.items()}}
         if required:
             schema["required"] = required
+        if op.get("closed"):
+            schema["additionalProperties"] = False
+            ctx.cls("schema_with_additionalProperties_false")
         if nested_object_resets_update(ctx, m, {n: (a,) for n, a in props.items()}, merge):
             ctx.cls("known:nested_object_update_skipped")
             return False
@@ -752,6 +770,8 @@ def apply_edit(op, fams, ctx, scratch) -> bool:
             json_structural = True
             if required:
                 fam.req_slot = True
+            if op.get("closed"):
+                m.closed = True
         fam.sync_js = False
 
     elif kind_op == "from_model":
@@ -889,6 +909,24 @@ def apply_edit(op, fams, ctx, scratch) -> bool:
                 m.required.clear()
             if kind == "json" and applied and fam.cache_built:
                 fam.req_dirty = True
+
+    elif kind_op == "def_from_other":
+        # g.defaults = <the Defaults object of the other slot's grammar | a copy of it | a plain dict of it>
+        for kind in ("json", "simple"):
+            g, m = fam.g[kind], fam.m[kind]
+            src_g, src_m = other.g[kind], other.m[kind]
+            missing = [n for n in src_m.defaults if n not in m.types]
+
+            def _take(g=g, src_g=src_g):
+                source = src_g.defaults
+                g.defaults = [source, source.copy(), dict(source)][op["mode"]]
+
+            if _attempt(ctx, kind, f"defaults = other.defaults (mode {op['mode']}, names {sorted(src_m.defaults)})", _take, bool(missing)):
+                m.defaults = dict(src_m.defaults)
+        if not other.sync_js:
+            fam.sync_js = False  # the JSON and simple sources differ
+        ctx.cls("defaults_from_other_grammar_" + ("with_missing_name" if any(n not in fam.m["json"].types for n in other.m["json"].defaults)
+                                                   else ("nonempty" if other.m["json"].defaults else "empty")))
 
     elif kind_op in ("def_set", "def_del", "def_update", "def_assign"):
         value_cls = DEFAULT_CLASSES[op["cls"]] if "cls" in op else "int"
@@ -1163,6 +1201,8 @@ def query_validate(op, fam: Family, ctx, prefix_key) -> None:
         ctx.cls("data_rejected_missing_required" if model.required - desc.keys() else "data_rejected_wrong_type")
     if set(desc) - set(model.types):
         ctx.cls("data_with_unknown_name")
+        if model.closed is not False:
+            ctx.cls("data_with_unknown_name_on_closed_schema")
     if not model.types:
         ctx.cls("validate_on_empty_grammar")
     fam.last = (desc, verdicts, not (model.required - desc.keys()))
